@@ -475,7 +475,12 @@ impl Ctx {
                         let again = check(&case, &mut env2);
                         if again.is_ok() {
                             if counting {
-                                stats.borrow_mut().inconclusive += 1;
+                                let mut st = stats.borrow_mut();
+                                st.inconclusive += 1;
+                                if st.notes.len() < 8 {
+                                    let m: String = f.message.chars().take(300).collect();
+                                    st.notes.push(format!("inconclusive (database-thread panic that did not repeat on an immediate re-run of the same case): {}", m));
+                                }
                             }
                             outcome = Ok(());
                         } else {
@@ -489,6 +494,13 @@ impl Ctx {
                         if f.is_busy_hang() {
                             // Still making progress when the deadline expired: inconclusive, not a violation.
                             env.inconclusive();
+                            if counting {
+                                let mut st = stats.borrow_mut();
+                                if st.notes.len() < 8 {
+                                    let m: String = f.message.chars().take(300).collect();
+                                    st.notes.push(format!("inconclusive (call still busy at the deadline): {}", m));
+                                }
+                            }
                             return Ok(());
                         }
                         if let Some(id) = kf.matches(&prop, &f) {
